@@ -39,9 +39,11 @@ type recCfg struct {
 	Trail            bool     `json:"trail"`
 	Acts             []string `json:"acts,omitempty"`
 	LBR, InputForget bool
-	Route            string  `json:"route"`
-	Reverse          bool    `json:"reverse,omitempty"` // direction="reverse"
-	XScale           float64 `json:"xscale,omitempty"`  // > 0: X multiplied by this (pre-activations far beyond +-88)
+	Route            string    `json:"route"`
+	ActAlpha         []float64 `json:"act_alpha,omitempty"` // activation_alpha (entry i for activation i)
+	ActBeta          []float64 `json:"act_beta,omitempty"`
+	Reverse          bool      `json:"reverse,omitempty"` // direction="reverse"
+	XScale           float64   `json:"xscale,omitempty"`  // > 0: X multiplied by this (pre-activations far beyond +-88)
 }
 
 func (cf recCfg) gates() int { return map[string]int{"RNN": 1, "GRU": 3, "LSTM": 4}[cf.Op] }
@@ -81,6 +83,22 @@ func (cf recCfg) attrs() ([]hx.Attr, ref.RecAttrs) {
 	ra := ref.RecAttrs{Hidden: cf.H, Activations: cf.Acts, LBR: cf.LBR, InputForget: cf.InputForget, Reverse: cf.Reverse}
 	if cf.Reverse {
 		as = append(as, hx.AStr("direction", "reverse"))
+	}
+	if cf.ActAlpha != nil {
+		ra.ActAlpha = cf.ActAlpha
+		v := make([]float32, len(cf.ActAlpha))
+		for i, x := range cf.ActAlpha {
+			v[i] = float32(x)
+		}
+		as = append(as, hx.AFloats("activation_alpha", v...))
+	}
+	if cf.ActBeta != nil {
+		ra.ActBeta = cf.ActBeta
+		v := make([]float32, len(cf.ActBeta))
+		for i, x := range cf.ActBeta {
+			v[i] = float32(x)
+		}
+		as = append(as, hx.AFloats("activation_beta", v...))
 	}
 	if cf.Acts != nil {
 		as = append(as, hx.AStrs("activations", cf.Acts...))
@@ -526,6 +544,24 @@ func checkC06(c *hx.Checker) {
 						jb.dom = hx.DRefuse // the reference knows the name: honoured or refused
 					}
 					jobs = append(jobs, jb)
+				}
+			}
+			// the parametric ONNX activations at the first position, with default and with other alpha / beta (dyadic
+			// values: exact in float32): honoured WITH those parameters or refused
+			for _, name := range []string{"HardSigmoid", "LeakyRelu", "Elu", "ThresholdedRelu", "ScaledTanh", "Affine", "hardsigmoid", "leakyrelu"} {
+				for _, par := range [][2][]float64{{nil, nil}, {{0.5}, {0.25}}, {{0.125}, nil}, {{2}, {-0.5}}} {
+					v := base
+					v.Acts = make([]string, nAct)
+					for i := range v.Acts {
+						v.Acts[i] = []string{"sigmoid", "tanh", "relu"}[(i+1)%3]
+					}
+					v.Acts[0] = name
+					v.ActAlpha, v.ActBeta = par[0], par[1]
+					jv := v.job()
+					jv.id += fmt.Sprintf(" alpha%v beta%v", par[0], par[1])
+					jv.tags = append(jv.tags, "activation="+name, "parametric-activation")
+					jv.dom = hx.DRefuse
+					jobs = append(jobs, jv)
 				}
 			}
 			// further ONNX activations (honoured or refused) and every supported one with inputs 300 times larger:
